@@ -695,13 +695,14 @@ def c04(res, rng, tier, replay=None):
         return replay_generic(replay)
     n = sizes(tier, 1200, 15000)
     res.rule = ('ExprGen globs x sampled paths; non-trivial = distinct (glob, matched path); tie: captures() indices and spans, matched text spans '
-                'for every index 0..n+1 borrowed and owned, impl vs the model leftmost-first matcher; oracle on the implementation: capture 0 is the path, '
+                'for every index 0..n+1 borrowed and owned, impl vs the model leftmost-first matcher (an assignment that differs must be that of some parse of the path - searched exhaustively by the model matcher: the regex crate lifts common prefixes out of alternations, which reorders backtracking priorities); oracle on the implementation: capture 0 is the path, '
                 'index n+1 is absent, participating captures ordered and disjoint, `? * $ [..]` captures separator-free, tree captures are runs '
                 'of complete components, every capture re-matches its own sub-expression (sliced by its span, flags in force prepended)')
     items, built = prepare(res, rng, n)
     tie_fields(res, items, ['caps'], 'C04 captures()')
     kfs = {k['class']: k for k in W.known_findings('C04')}
     recheck = []
+    differing = []
     for it in built:
         if it.imm is None:
             continue
@@ -716,8 +717,12 @@ def c04(res, rng, tier, replay=None):
                 res.oracle_fail('matched text is inconsistent: ' + r, {'glob': it.e, 'path': p})
                 break
             if it.mmm is not None and idx < len(it.mmm) and r != it.mmm[idx]:
-                cls = 'rooted_first_tree' if it.cls.get('rft') == '1' else None
-                res.tie_fail('C04 capture spans differ from the model matcher', {'glob': it.e, 'path': p, 'impl': r, 'model': it.mmm[idx]})
+                if bit(r) == '1' and bit(it.mmm[idx]) == '1':
+                    # both match, the assignments differ: the regex crate factors common prefixes of alternation branches, which
+                    # reorders the priorities of a backtracking engine; the assignment must still be that of *some* parse
+                    differing.append((it, p, r, it.mmm[idx]))
+                else:
+                    res.tie_fail('C04 capture spans differ from the model matcher', {'glob': it.e, 'path': p, 'impl': r, 'model': it.mmm[idx]})
             if bit(r) != '1':
                 continue
             res.evaluations += 1
@@ -760,6 +765,15 @@ def c04(res, rng, tier, replay=None):
                     res.oracle_fail(bad, {'glob': it.e, 'path': p, 'spans': r, 'class': cls})
                 break
         res.sample({'glob': it.e, 'caps': caps})
+    # assignments that differ from the backtracking order of the model matcher: they must be the assignment of some parse
+    outs = W.run_model(['capsok %s %s %s' % (hx(it.e), hx(p), hx(r)) for (it, p, r, mm_) in differing])
+    for (it, p, r, mm_), o in zip(differing, outs):
+        if o == '1':
+            res.count('capture assignments of a lower-priority parse (regex crate prefix factoring)')
+        elif o == '0':
+            res.tie_fail('C04 capture spans are not those of any parse of the path by the program', {'glob': it.e, 'path': p, 'impl': r, 'model': mm_})
+        else:
+            res.count('capture assignments not classified (%s)' % o)
     recheck = recheck[:sizes(tier, 6000, 60000)]
     outs = W.run_impl(['mm %s %s' % (hx(sub), hx(txt)) for (_, _, _, sub, txt) in recheck])
     for (it, p, k, sub, txt), o in zip(recheck, outs):
@@ -1085,7 +1099,7 @@ def c07(res, rng, tier, replay=None):
     n = sizes(tier, 900, 12000)
     res.rule = ('flag-free ExprGen globs; for an alternation / repetition at any depth the related expressions are made by text substitution through the '
                 'token spans (each branch in place; the body written out k times for every permitted k <= 4; single-branch braces and <x:1> wrapped around a '
-                'top-level token); families whose members all build are compared on the union of their sampled paths; non-trivial = distinct (family, path); '
+                'top-level token); families whose members all build (and whose junctions do not read as a new token: `*` next to `*`) are compared on the union of their sampled paths; non-trivial = distinct (family, path); '
                 'tie: any(): token tree, regex, is_match impl vs model, text vs compiled vs nested; oracle: match sets are equal as the property states')
     g = G.ExprGen(rng, wild=0.02, maxdepth=2)
     g.flag = lambda: ''
@@ -1121,8 +1135,15 @@ def c07(res, rng, tier, replay=None):
             # the span of a token begins with the flag directives that precede it: they stay in place
             lead = re.match(rb'^(\(\?[-i]+\))*', eb[s0:s0 + n0]).end()
             pre, post = eb[:s0 + lead], eb[s0 + n0:]
+            def glued(*pieces):
+                # writing pieces next to each other must not create a token that is in none of them: `*` `*` reads as a tree wildcard
+                ps = [x for x in pieces if x]
+                return any(a[-1:] in (b'*', b'$') and b[:1] == b'*' for a, b in zip(ps, ps[1:]))
             if nd['k'] == 'A':
                 members = []
+                if any(glued(pre, eb[b['span'][0]:b['span'][0] + b['span'][1]], post) for b in nd['ch']):
+                    res.count('family-skipped:junction')
+                    continue
                 for b in nd['ch']:
                     bs, bn = b['span']
                     members.append((pre + eb[bs:bs + bn] + post).decode('utf-8', 'ignore'))
@@ -1136,6 +1157,10 @@ def c07(res, rng, tier, replay=None):
                 if lo > 4:
                     continue
                 top = min(hi, 4) if hi is not None else 4
+                body = eb[bs:bs + bn]
+                if glued(pre, body, post) or glued(body, body) or glued(pre, post):
+                    res.count('family-skipped:junction')
+                    continue
                 members = [(pre + eb[bs:bs + bn] * k + post).decode('utf-8', 'ignore') for k in range(lo, top + 1)]
                 fams.append(('repetition' if hi is not None and hi <= 4 else 'repetition_lower', it, members))
         toks = top_tokens(it.tree)
